@@ -3,7 +3,7 @@
 # check that caught it where its own did not at first).  /repo must be clean.  ~1 h.
 # (the demonstrations were confirmed to fail when each change was first imported; skipped here)
 cd "$(dirname "$0")/.."
-declare -A EXTRA=( [C06-2]=C17 [C07-3]=C09 [C11-1]=C17 [C17-3]=C15 [r2-C08-2]=C17 [r2-C11-2]=C17 [r2-C17-3]=C15 [r3-C06-3]=C17 [r3-C07-2]=C17 [r3-C11-1]=C17 [r3-C12-1]=C17 [r3-C12-2]=C17 [r4-C06-1]=C17 [r4-C07-3]=C17 [r4-C11-1]=C17 [r4-C11-3]=C17 [r4-C12-3]=C17 [r4-C17-3]=C04 [r3-C01-3]=C19 [r3-C17-2]=C04 [C15-3]=C12 [r5-C01-2]=C03 [r5-C01-3]=C02 [r5-C05-3]=C15 [r5-C06-1]=C17 [r5-C06-2]=C17 [r5-C11-3]=C17 [r5-C15-1]=C19 [r5-C07-2]=C09 )
+declare -A EXTRA=( [C06-2]=C17 [C07-3]=C09 [C11-1]=C17 [C17-3]=C15 [r2-C08-2]=C17 [r2-C11-2]=C17 [r2-C17-3]=C15 [r3-C06-3]=C17 [r3-C07-2]=C17 [r3-C11-1]=C17 [r3-C12-1]=C17 [r3-C12-2]=C17 [r4-C06-1]=C17 [r4-C07-3]=C17 [r4-C11-1]=C17 [r4-C11-3]=C17 [r4-C12-3]=C17 [r4-C17-3]=C04 [r3-C01-3]=C19 [r3-C17-2]=C04 [C15-3]=C12 [r5-C01-2]=C03 [r5-C01-3]=C02 [r5-C05-3]=C15 [r5-C06-1]=C17 [r5-C06-2]=C17 [r5-C11-3]=C17 [r5-C15-1]=C19 [r5-C07-2]=C09 [r6-C01-1]=C19 )
 for d in seeded/*/; do
   b=$(basename "$d")
   [ -f "$d/meta.json" ] || continue
